@@ -64,6 +64,33 @@ def check(ctx):
     ops = {last_attr(c) for c in calls_in(ss) if isinstance(c.func, ast.Attribute)} & CONTENT_CHANGING
     ctx.ob("R1", f"{CO}:_Formatter._source_slice", "the source slice is returned without content-changing operations", not ops, key="source_slice|ops", detail=str(sorted(ops)))
 
+    # inside brackets a line start copies the source's leading whitespace verbatim: that text can be *content* (the
+    # raw argument of a multi-line function macro `name!(...)` is handed to the macro as typed), so any re-indentation
+    # there changes the program
+    runf = flat(ctx, co.func("_Formatter.run"), depth=1, skip=("_iter_tokens", "_space_between", "_render_token", "_flush_blank_lines", "_comment_indent", "_is_subproc_statement", "_is_alias_macro_line", "_finalize", "_source_slice", "_raw_between"))
+    rdefs_ = df.all_defs(runf)
+    depth_ifs = [n for n in walk_local(runf) if isinstance(n, ast.If) and "_paren_depth" in unparse(n.test) and any(isinstance(a_, ast.If) and "_line_start" in unparse(a_.test) for a_ in ancestors(n))]
+    if not depth_ifs:
+        raise AnalysisError(f"{CO}:_Formatter.run: bracket-continuation branch (`_paren_depth` under `_line_start`) not found")
+    n_cont = 0
+    for dif in depth_ifs:
+        inside_arm = dif.body if not (isinstance(dif.test, ast.UnaryOp) or (isinstance(dif.test, ast.Compare) and isinstance(dif.test.ops[0], (ast.LtE, ast.Eq)))) else dif.orelse
+        for st_ in inside_arm:
+            for c in calls_in(st_):
+                if isinstance(c.func, ast.Attribute) and c.func.attr == "append" and unparse(c.func.value) == "self._out" and c.args:
+                    n_cont += 1
+                    v = c.args[0]
+                    if isinstance(v, ast.Name) and len(rdefs_.get(v.id, [])) >= 1:
+                        vs = [d.value for d in rdefs_[v.id] if lexically_inside(d.stmt, dif)]
+                        v = vs[0] if len(vs) == 1 else v
+                    base = v.value if isinstance(v, ast.Subscript) and isinstance(v.slice, ast.Slice) else None
+                    if isinstance(base, ast.Name):
+                        bs = [d.value for d in rdefs_.get(base.id, []) if lexically_inside(d.stmt, dif)]
+                        base = bs[0] if len(bs) == 1 else base
+                    ok = base is not None and isinstance(base, ast.Subscript) and unparse(base.value).startswith("self._src")
+                    ctx.ob("R1", f"{CO}:_Formatter.run", f"`{short(c, 60)}`: inside brackets the leading whitespace of a continuation line is copied from the source verbatim (a plain slice of the source row)", ok, key="run|continuation-indent-rewritten", where=loc(c))
+    if n_cont < 1:
+        raise AnalysisError(f"{CO}:_Formatter.run: no emission found in the bracket-continuation branch")
     # row tables: the tokenizer numbers rows by "\n" only; a table indexed by token rows must be split the same way
     n_tab = 0
     # the tables: attributes self.X that are indexed with a tokenizer row (`tok.start[0] - 1`, `s_line - 1` ...)
